@@ -251,4 +251,27 @@ theorem reachable_induction {P : Params} {l : Launch} {alive : Bool} {Inv : Stat
     | none => simp [hs] at hr
     | some s' => rw [hs] at hr; exact ih s' (hstep s0 e s' h hs) s1 hr
 
+/-! ### the serving side across host connections (net/rpc) -/
+
+/-- what hosts do to a serving net/rpc plugin: connect, drop the connection without a word, or send `Control.Quit` -/
+inductive ConnEv | connect | drop | quit
+  deriving DecidableEq, Repr
+
+/-- fact: `(*RPCServer).done` — which ends `Serve` and with it the plugin — is called from `controlServer.Quit` (and by
+`Serve` itself when its listener fails), never from per-connection code -/
+structure ServerParams where
+  doneOnlyOnQuit : Bool
+  deriving DecidableEq, Repr
+
+def ServerParams.Good (S : ServerParams) : Prop := S.doneOnlyOnQuit = true
+
+instance (S : ServerParams) : Decidable S.Good := by unfold ServerParams.Good; exact inferInstance
+
+/-- is the plugin still serving after this history of host connections? -/
+def serverUp (S : ServerParams) : List ConnEv → Bool
+  | [] => true
+  | .quit :: _ => false
+  | .drop :: r => if S.doneOnlyOnQuit then serverUp S r else false
+  | .connect :: r => serverUp S r
+
 end GoPlugin.Lifecycle
